@@ -3,6 +3,11 @@
    mode from the same action alphabet as CnlMachine (Load, Step).  A program is a sequence of
        [k |-> "load", r, vi]                    register r := value number vi of its type's value table
        [k |-> "bin", op, a, b, d]               register d := register a  op  register b   (converted to d's type)
+       [k |-> "cas", op, a, d]                  register d op= register a                (compound assignment)
+       [k |-> "neg", a, d]                      register d := - register a
+       [k |-> "cmp", a, b]                      the six comparisons of two registers      (no state change)
+       [k |-> "fromint", r, vi]                 register r := its type constructed from built-in integer number vi
+       [k |-> "toflt", a]                       register a converted to double            (no state change)
    Every register is loaded before it is read.  Each simulated behaviour of full depth is written as one JSON
    line; the C++ interpreter executes it on real objects and logs the abstract state after every step. *)
 EXTENDS Integers, Sequences, TLC, CSV, Json, IOUtils
@@ -18,8 +23,24 @@ Load == \E r \in 1..NRegs, vi \in 0..(NValues - 1) :
 Step == \E op \in Ops, a \in loaded, b \in loaded, d \in 1..NRegs :
             /\ hist' = Append(hist, [k |-> "bin", op |-> op, a |-> a, b |-> b, d |-> d])
             /\ loaded' = loaded \cup {d}
+Cas == \E op \in Ops, a \in loaded, d \in loaded :
+            /\ hist' = Append(hist, [k |-> "cas", op |-> op, a |-> a, b |-> d, d |-> d])
+            /\ UNCHANGED loaded
+NegStep == \E a \in loaded, d \in 1..NRegs :
+            /\ hist' = Append(hist, [k |-> "neg", a |-> a, d |-> d])
+            /\ loaded' = loaded \cup {d}
+CmpStep == \E a \in loaded, b \in loaded :
+            /\ hist' = Append(hist, [k |-> "cmp", a |-> a, b |-> b])
+            /\ UNCHANGED loaded
+FromInt == \E r \in 1..NRegs, vi \in 0..(NValues - 1) :
+            /\ hist' = Append(hist, [k |-> "fromint", r |-> r, vi |-> vi])
+            /\ loaded' = loaded \cup {r}
+ToFlt == \E a \in loaded :
+            /\ hist' = Append(hist, [k |-> "toflt", a |-> a])
+            /\ UNCHANGED loaded
 Next == /\ Len(hist) < Depth
-        /\ IF Len(hist) < 2 THEN Load ELSE (Load \/ Step \/ Step \/ Step)
+        /\ IF Len(hist) < 2 THEN Load
+           ELSE (Load \/ Step \/ Step \/ Step \/ Cas \/ NegStep \/ CmpStep \/ FromInt \/ ToFlt)
 Spec == Init /\ [][Next]_<<hist, loaded>>
 Emit == Len(hist) = Depth => CSVWrite("%1$s", <<ToJson(hist)>>, Out)
 =============================================================================
